@@ -5,6 +5,7 @@ import (
 	"fmt"
 	"math"
 	"os"
+	"path/filepath"
 	"strconv"
 	"strings"
 	"time"
@@ -12,6 +13,7 @@ import (
 	"github.com/zalf-rpm/Hermes2Go/hermes"
 	"verif/mc"
 	"verif/proj"
+	yaml "gopkg.in/yaml.v3"
 )
 
 // C09 — while a crop grows its state is finite, non-negative and inside its bounds, the development stage never
@@ -27,6 +29,7 @@ type c09Spec struct {
 	Alpha  []string `json:"alpha"`
 	D      int      `json:"d"`
 	Word   []string `json:"word,omitempty"`
+	NFkt   int      `json:"nfkt,omitempty"` // >0: the crop file (YAML) is a copy in which the number of the N-content function is set to NFkt (functions 7-9 are used by no shipped file)
 	After  bool     `json:"after,omitempty"` // the crop follows a complete winter wheat and is harvested early (before maturity)
 	Self   bool     `json:"self,omitempty"`  // ... follows a complete season of itself instead
 	Long   *lwSpec  `json:"long,omitempty"`  // a long world (long.go): every crop of its rotation is judged while it grows
@@ -70,6 +73,14 @@ func c09Specs(tier string, seed int) []c09Spec {
 			out = append(out, c09Spec{File: f, Yml: yml, Soil: "loam12", Root: 12, NLevel: 1, CO2: 2, Alpha: alpha[:2], D: 2, After: true})
 			out = append(out, c09Spec{File: f, Yml: yml, Soil: "sand20", Root: 15, NLevel: 1, CO2: 1, Alpha: alpha[:2], D: 2, After: true, Self: true})
 			i++
+		}
+	}
+	// every N-content function (1-9) with the development and partitioning parameters of three shipped crops
+	for _, f := range []string{"PARAM.WW", "PARAM.SM", "PARAM.WR"} {
+		for nf := 1; nf <= 9; nf++ {
+			for _, nl := range []int{0, 2} {
+				out = append(out, c09Spec{File: f, Yml: true, Soil: "loam12", Root: 12, NLevel: nl, CO2: 1, Alpha: alpha, D: d - 1, NFkt: nf})
+			}
 		}
 	}
 	for _, lw := range lwSpecs(tier, seed, false) {
@@ -225,6 +236,30 @@ func c09Run(raw json.RawMessage, c *mc.Ctx) {
 	}
 	p.Weather = baseW
 	p.Write(root)
+	if sp.NFkt > 0 {
+		paramDir := filepath.Join(proj.RepoDir(), "examples", "parameter")
+		edit := filepath.Join(root, "param_edit")
+		os.MkdirAll(edit, 0o755)
+		ents, _ := os.ReadDir(paramDir)
+		for _, e := range ents {
+			if e.Name() != sp.File+".yml" {
+				os.Symlink(filepath.Join(paramDir, e.Name()), filepath.Join(edit, e.Name()))
+			}
+		}
+		cp, err := hermes.ReadCropParamFromFile(filepath.Join(paramDir, sp.File+".yml"))
+		if err != nil {
+			mc.HarnessError("read %s: %v", sp.File, err)
+		}
+		cp.NGEFKT = sp.NFkt
+		if sp.NFkt == 5 && cp.RGA == 0 {
+			cp.RGA, cp.RGB = 0.045, -0.52 // function 5 takes its coefficients from the file (values of the shipped beet file)
+		}
+		b, err := yaml.Marshal(cp)
+		if err != nil {
+			mc.HarnessError("marshal: %v", err)
+		}
+		os.WriteFile(filepath.Join(edit, sp.File+".yml"), b, 0o644)
+	}
 	sowZ, harZ := proj.ZEIT(proj.D(sow)), proj.ZEIT(proj.D(har))
 	for _, w := range ws {
 		wx := append([]proj.Day{}, baseW...)
@@ -235,7 +270,7 @@ func c09Run(raw json.RawMessage, c *mc.Ctx) {
 		}
 		p.Weather = wx
 		writeWeather(root, p)
-		label := fmt.Sprintf("%s (%s) soil %s root limit %d N level %d CO2 method %d word=%v", sp.File, map[bool]string{true: "yml", false: "txt"}[sp.Yml], sp.Soil, sp.Root, sp.NLevel, sp.CO2, w)
+		label := fmt.Sprintf("%s%s (%s) soil %s root limit %d N level %d CO2 method %d word=%v", sp.File, map[bool]string{true: fmt.Sprintf(" with N-content function %d", sp.NFkt), false: ""}[sp.NFkt > 0], map[bool]string{true: "yml", false: "txt"}[sp.Yml], sp.Soil, sp.Root, sp.NLevel, sp.CO2, w)
 		lastStage := -1.0
 		nv := len(c.Viol)
 		stageDOY := map[int]int{} // stage number -> day of year on which the crop under test entered it
@@ -292,7 +327,11 @@ func c09Run(raw json.RawMessage, c *mc.Ctx) {
 			}
 			lastStage = g.INTWICK.Num
 		}}
-		res := proj.Run(root, p.Args(root), pr)
+		var extra []string
+		if sp.NFkt > 0 {
+			extra = []string{"parameter=param_edit"}
+		}
+		res := proj.Run(root, p.Args(root, extra...), pr)
 		c.Trace(1)
 		if !res.Success || res.Panic != "" {
 			c.Outcome("run-error")
